@@ -3,6 +3,7 @@ import InToto.Proofs.PipeThresholds
 import InToto.Proofs.PipeInspect
 import InToto.Proofs.RulesMore
 import InToto.Model.Validate
+import InToto.Proofs.Sublayout
 
 namespace InToto.NoPanicProofs
 open InToto InToto.Json InToto.Schema InToto.Metadata InToto.Verify InToto.PipeProofs
@@ -142,27 +143,7 @@ theorem verifyAux_no_panic (W : World) (ln : Bool) (ci : List Str) (fuel : Nat) 
     · rfl
     · rename_i h
       refine (np_absurd h ?_).elim
-      apply foldl_inv (fun st : Outcome (List (Step × List (Str × LinkView))) × Verify.Acc => st.1.isPanic = false)
-      · rfl
-      · intro st sv _ hst
-        split
-        · split
-          · rfl
-          · rfl
-          · rename_i h
-            refine (np_absurd h ?_).elim
-            apply foldl_inv (fun s2 : Outcome (List (Str × LinkView)) × Verify.Acc => s2.1.isPanic = false)
-            · rfl
-            · intro s2 kv _ hs2
-              split
-              · split
-                · split <;> rfl
-                · split
-                  · rfl
-                  · rfl
-                  · rename_i h; exact (np_absurd h (ih ..)).elim
-              · exact hs2
-        · exact hst
+      exact SubProofs.resolveSteps_no_panic _ _ _ _ _ (fun md ks d s a => ih md ks d s [] .none a)
     rename_i res hres
     clear hres
     apply ite_np rfl; intro hany
